@@ -266,7 +266,7 @@ func c19Gen(runSeed uint64, tier string) *gen.Scenario {
 		}
 		// context shapes are encoded in Limit: 0 = as generated, else a hostile shape id
 		if g.Chance(0.35) {
-			r.Limit = 1 + g.Intn(6)
+			r.Limit = 1 + g.Intn(7)
 		}
 		if g.Chance(0.25) {
 			ct := gen.Pick(g, base)
@@ -317,6 +317,8 @@ func hostileContext(shape int) *structpb.Struct {
 			f[fmt.Sprintf("k%d", i)] = structpb.NewNumberValue(float64(i))
 		}
 		return &structpb.Struct{Fields: f}
+	case 7:
+		return &structpb.Struct{} // present and empty: the Fields map is nil
 	case 6:
 		return &structpb.Struct{Fields: map[string]*structpb.Value{"x": structpb.NewStringValue(strings.Repeat("a", 30) + "!"), "l": structpb.NewListValue(&structpb.ListValue{Values: []*structpb.Value{nil, structpb.NewBoolValue(true)}})}}
 	}
